@@ -46,10 +46,35 @@ CHECKS = {
          CSO_NOTE, "§5 C36"),
 }
 
+PURE_NOTE = ("Trusted base: the harness's own reference models (written from the property text), Rust's catch_unwind, and the per-thread allocation counter of the harness allocator. "
+             "Inputs are boundary-structured plus seeded random; 'held' means held on the inputs generated.")
+CHECKS.update({
+ "C24": ("exploration", "runtime reference-model monitor over the real parsers (differential + panic/Ok/Err oracle)",
+         "Valid serialisations, single-/multi-field corruptions, lengths around every layout boundary, header constants +-1, non-canonical limbs and huge counts are fed to the leaf, private-batch and public-batch parsers under catch_unwind; Ok/Err and the parsed value are compared with a layout model, and the felt-based and u64-based parsers are compared with each other on every vector; all lengths 0..8+21*66 are swept.",
+         PURE_NOTE, "§5 C24"),
+ "C25": ("exploration", "runtime reference-model monitor over encoders/decoders (round trip, injectivity, acceptance)",
+         "All strings over three 2-symbol alphabets up to length 10/13 (round trip + pairwise injectivity, exhaustive), structured x vs x||suffix pairs, random strings up to cap and cap+1, malformed felt vectors through the decoder against a reference decoder, digests with limbs around p, limb decoding around 2^32, u128 quantisation around the u32 boundary.",
+         PURE_NOTE, "§5 C25"),
+ "C26": ("exploration", "runtime reference-model monitor over the compact hash (hook H6) and node hashing",
+         "Every length 0..1024/4096 and lengths around 1 MiB with canonical and non-canonical limbs: acceptance == (len<=1MiB, len%8==0, limbs<p); accepted inputs re-hashed from an independent injective limb map; node hashing on random quadruples: error not panic for non-canonical children, all 24 orders equal, equals presorted hashing.",
+         PURE_NOTE + " Hash collisions are out of scope.", "§5 C26"),
+ "C28": ("exploration", "runtime reference-model monitor over the config policy, constructors and CLI flags",
+         "Single-knob sweeps, the full pairwise product over every threshold and neighbour, and random multi-knob configs are compared with an independent policy model; failing configs are fed to all six circuit/prover constructors under catch_unwind with an allocation counter; memprof CLI flag sets (config.rs compiled in via #[path]) must only pass validate() when the built config passes the policy.",
+         PURE_NOTE, "§5 C28"),
+ "C29": ("exploration", "runtime monitor: Err/no-panic/no-allocation/no-file oracle at every count-taking entry point",
+         "Counts {0,65,66,1024,2^32,2^63,usize::MAX} at 23 entry points (config type and file loader incl. legacy key, parsers, circuit and prover constructors, byte/dir loaders, recursive-verifier helper, pool, three artifact builders, aggregator init) under catch_unwind with overflow-checks on, an allocation counter and a scratch directory watch; try_pi_len against u128 arithmetic; config.json round trips.",
+         PURE_NOTE, "§5 C29"),
+ "C35": ("exploration", "runtime monitor over the transfer-proof JSON parser (caps, panic, allocation, validate-consistency)",
+         "Documents at cap-1/cap/cap+1 of each field cap and of the 8 MiB raw cap (whitespace- and escape-inflated), extra/duplicate/missing fields, nesting to 10^5, truncations and byte flips; oracle: no panic, over-8MiB => Err with < 64 KiB allocated, accepted => validate() ok and every cap respected, expected acceptance at each boundary.",
+         PURE_NOTE, "§5 C35"),
+})
+
 ENGINES = [
  {"name": "cso", "path": "harness/src/cso.rs", "serves_properties": ["C01","C02","C03","C04","C06","C07","C08","C09","C10","C11","C12","C13","C27","C30","C31","C36"],
   "kind_free_text": "constraint-satisfaction oracle: lenient witness generation + evaluation of every gate constraint with plonky2's own evaluators + confirmation by the real prover/verifier"},
  {"name": "leaf-model", "path": "harness/src/leaf.rs", "serves_properties": ["C01","C02","C03","C04","C05","C27"], "kind_free_text": "independent executable model of the leaf relation"},
+ {"name": "pure-models", "path": "harness/src/pure.rs, harness/src/policy.rs", "serves_properties": ["C24","C25","C26","C28","C29","C35"], "kind_free_text": "reference models + catch_unwind + allocation counter over pure functions and entry points"},
+ {"name": "heapmon", "path": "harness/src/heapmon.rs", "serves_properties": ["C17","C25","C26","C28","C29","C33","C35"], "kind_free_text": "global-allocator wrapper: per-thread byte counter and secret scanner at dealloc/realloc"},
  {"name": "wrapper-models", "path": "harness/src/wrap.rs", "serves_properties": ["C06","C07","C08","C09","C12","C13","C36","C34"], "kind_free_text": "independent executable models of both aggregation wrappers; wrapper-only / full recursive circuit forms"},
 ]
 
